@@ -226,4 +226,57 @@ class QueueAndMirror(Suite):
         return msg.split(":")[0]
 
 
-SUITES = {"queue-and-mirror": QueueAndMirror()}
+
+class GraphsAtEndpoint(Suite):
+    """contexts() lists exactly the named graphs of the endpoint's dataset - also graphs that hold no triple"""
+    chunk = 1
+
+    def bound(self, tier):
+        return ("endpoint datasets with named graphs that are non-empty, created empty, and emptied again (8 combinations) x "
+                "JSON/XML results x GET/POST: store.contexts() == the endpoint's named graphs; contexts(triple) == the "
+                "graphs holding the triple")
+
+    def enumerate(self, tier):
+        for fmt in ("json", "xml"):
+            for meth in ("GET", "POST"):
+                for mask in range(8):
+                    yield {"format": fmt, "method": meth, "mask": mask}
+
+    def check(self, case):
+        import rdflib.plugins.stores.sparqlconnector as conn
+        from rdflib import URIRef
+        from rdflib.plugins.stores.sparqlstore import SPARQLUpdateStore
+        T = vocab()
+        ep = Endpoint(case["format"])
+        names = [URIRef("urn:g1"), URIRef("urn:g2"), URIRef("urn:g3")]
+        if case["mask"] & 1:
+            ep.ds.graph(names[0]).add(T[0])
+        if case["mask"] & 2:
+            ep.ds.graph(names[1])                      # created, never filled
+        if case["mask"] & 4:
+            g3 = ep.ds.graph(names[2])
+            g3.add(T[1])
+            g3.remove(T[1])                            # filled and emptied again
+        from rdflib.graph import DATASET_DEFAULT_GRAPH_ID as DID
+        want = {g.identifier for g in ep.ds.graphs() if g.identifier != DID}
+        saved = conn.urlopen
+        conn.urlopen = ep.urlopen
+        try:
+            st = SPARQLUpdateStore("http://x/q", "http://x/u", returnFormat=case["format"], method=case["method"])
+            got = {c if isinstance(c, URIRef) else getattr(c, "identifier", c) for c in st.contexts()}
+            if got != want:
+                return (f"contexts: store.contexts() = {sorted(map(str, got))}, the endpoint's dataset has the named graphs "
+                        f"{sorted(map(str, want))}")
+            got_t = {c if isinstance(c, URIRef) else getattr(c, "identifier", c) for c in st.contexts(T[0])}
+            want_t = {n for n in names if T[0] in ep.ds.graph(n)} if case["mask"] & 1 else set()
+            if got_t != want_t:
+                return f"contexts-of-triple: contexts({T[0]}) = {sorted(map(str, got_t))} expected {sorted(map(str, want_t))}"
+        finally:
+            conn.urlopen = saved
+        return None
+
+    def classify(self, case, msg):
+        return msg.split(":")[0]
+
+
+SUITES = {"queue-and-mirror": QueueAndMirror(), "graphs-at-endpoint": GraphsAtEndpoint()}
